@@ -869,10 +869,12 @@ class Translator:
                         raise Untranslatable("variable %s has types %s and %s after a branch" % (nm, lean_type(types[nm]), lean_type(t)))
                 types[nm] = t
             return ""
+        saved_pending, saved_lc = list(getattr(self, "pending", [])), dict(getattr(self, "loop_counter", {}))
         for br in (s.body, s.orelse):
             cc = c.copy()
             cc.counter = [c.counter[0]]
             self.block(list(br), cc, leaf)
+        self.pending, self.loop_counter = saved_pending, saved_lc      # the probe pass emits nothing
         def leaf2(c2):
             items = [self.coerce(nm, c2.env[nm], types[nm]) for nm in names] + ([c2.rd] if with_rd else [])
             tup = "()" if not items else items[0] if len(items) == 1 else "(" + ", ".join(items) + ")"
@@ -946,7 +948,10 @@ class Translator:
         if with_rd:
             c3.rd = c.fresh("r")
         opat = self.state(names, c3, with_rd)
-        loop = "Mimic.Py.forM %s %s (fun %s %s =>\n%s)" % (src, init, pat, spat, ind(body))
+        sty = self.state_type(names, before, with_rd)
+        bound = set(tvars) | set(names)
+        fn = self.lift(c, "for", [pat, spat], body, "%s → %s → Option %s" % (lean_type(et), sty, sty), bound)
+        loop = "Mimic.Py.forM %s %s %s" % (src, init, fn)
         if not c.partial:
             raise Untranslatable("for loop in a total function")
         return self.wrap(binds, "match %s with\n| none => none\n| some %s =>\n%s" % (loop, opat, ind(cont(c3))))
@@ -997,10 +1002,30 @@ class Translator:
         if with_rd:
             c3.rd = c.fresh("r")
         opat = self.state(names, c3, with_rd)
-        loop = "Mimic.Py.loopM (σ := %s) (α := %s) %s %s (fun %s =>\n%s)" % (sty, rett, fuel, init, spat, ind(step))
+        fn = self.lift(c, "while", [spat], step, "%s → Option (Step %s %s)" % (sty, sty, rett), set(names))
+        loop = "Mimic.Py.loopM (σ := %s) (α := %s) %s %s %s" % (sty, rett, fuel, init, fn)
         after = "none" if always else cont(c3)      # nothing follows a `while True` that has no break
         return pre + ("match %s with\n| none => none\n| some none => none\n| some (some (Mimic.Py.Step.next _)) => none\n"
                       "| some (some (Mimic.Py.Step.ret a)) => some a\n| some (some (Mimic.Py.Step.brk %s)) =>\n%s" % (loop, opat, ind(after)))
+
+    def lift(self, c, kind, pats, body, ty, bound):
+        """emit the loop body as a named definition of its own (so that proofs can refer to it) → the term to use"""
+        import re
+        self.loop_counter = getattr(self, "loop_counter", {})
+        k = self.loop_counter.get(c.fn_name, 0) + 1
+        self.loop_counter[c.fn_name] = k
+        name = "%s_loop%d" % (c.fn_name.replace(".", "_").lstrip("_"), k)
+        fvs = []
+        for v, t in c.env.items():
+            if v in bound or t is None or (t[0] in ("list", "dict") and t[1] is None):
+                continue
+            if re.search(r"(?<![A-Za-z0-9_.'])%s(?![A-Za-z0-9_'])" % re.escape(v), body):
+                fvs.append((v, t))
+        uses_env = bool(re.search(r"(?<![A-Za-z0-9_.])E(\.| |\))", body))
+        sig = (" (E : Env S)" if uses_env else "") + "".join(" (%s : %s)" % (v, lean_type(t)) for v, t in fvs)
+        text = "def %s%s : %s :=\n  fun %s =>\n%s\n" % (name, sig, ty, " ".join(pats), ind(body, 2))
+        self.pending.append(text)
+        return "(%s%s%s)" % (name, " E" if uses_env else "", "".join(" " + v for v, _ in fvs))
 
     def state_type(self, names, types, with_rd):
         items = [lean_type(types[nm]) for nm in names] + (["Bytes"] if with_rd else [])
@@ -1088,7 +1113,7 @@ class Translator:
         rt = ret if ret is not None else (ann_type(f.returns) if f.returns is not None else None)
         if rt is None:
             raise Untranslatable("%s: no return type" % name)
-        uses_env = "E." in "PLACEHOLDER"
+        uses_env = False
         last_err = None
         for partial in (False, True):
             c = Ctx(self, name, env, "r" if reader else None, rt, bool(reader), partial)
@@ -1097,11 +1122,14 @@ class Translator:
             if reader and not partial:
                 continue
             self._partial_mode = partial
+            self.pending = []
+            lc = dict(getattr(self, "loop_counter", {}))
             try:
                 body = self.block([s for s in f.body], c, lambda cc: (_ for _ in ()).throw(Untranslatable("%s falls off its end" % name))
                                   if rt != ("unit",) else self.result(cc, "()"))
             except Untranslatable as e:
                 last_err = e
+                self.loop_counter = lc
                 if not partial and ("total function" in str(e) or True):
                     continue
                 raise
@@ -1117,7 +1145,7 @@ class Translator:
             self.fns[name.split(".")[-1] if "." not in name else name] = Fn(name, lean_name, params, rt, bool(reader), partial, fuel, uses_env)
             if "." in name:
                 self.fns[name] = self.fns[name]
-            text = "%s : %s :=\n%s\n" % (head, rty, ind(body))
+            text = "".join(t + "\n" for t in self.pending) + "%s : %s :=\n%s\n" % (head, rty, ind(body))
             self.out.append(text)
             return text
         raise last_err
